@@ -162,7 +162,10 @@ def run(ctx):
         cases.append(declcorr.ChainCase("str", list(ops)))
     els = [schema.int(i) for i in range(20)]
     for ops in ([("call", (list(els),)), ("len", (19,))], [("call", (list(els),)), ("len", (21, ...))], [("call", (list(els) + [...],)), ("len", (19,))],
-                [("call", (list(els),)), ("len", (20,))], [("call", ([...] + list(els) + [...],)), ("len", (..., 19))]):
+                [("call", (list(els),)), ("len", (20,))], [("call", (list(els),)), ("len", (21,))], [("call", (list(els),)), ("len", (40,))],
+                [("call", ([schema.int(1), schema.int(2)],)), ("len", (3,))], [("call", ([schema.int(1)],)), ("len", (2,))],
+                [("call", ([],)), ("len", (1,))], [("call", ([schema.int(1), schema.int(2)],)), ("len", (2, 2))],
+                [("call", ([schema.int(1), schema.int(2)],)), ("len", (3, 4))], [("call", ([schema.int(1), schema.int(2)],)), ("len", (..., 1))], [("call", ([...] + list(els) + [...],)), ("len", (..., 19))]):
         cases.append(declcorr.ChainCase("list", list(ops)))
     # every UUID family as a fixed value: v4, v1/v3/v5, and the non-RFC-4122 variants whose `.version` is None
     import uuid as _uuid
